@@ -11,6 +11,7 @@ def run(ck):
               "MC abstract anytime search: ResultValid, Monotone, OptimalWhenExhausted on case %d" % which, workers=4)
     # L1: complete greedy with the Interrupt action enabled in every loop state: TLC explores every interruption point of every input / configuration
     models.cg_mc(ck, 4, 3, 3, models.SW_SOME if q else models.SW_ALL, True, ["ResultValid", "ResultNotNone", "BestConsistent", "FirstIsLPT"], props=["Monotone"])
+    models.cg_trail_replay(ck, 4, 3, 3, models.SW_SOME if q else models.SW_ALL)
     models.ckk_mc(ck, 4 if q else 5, 4, 3, ["YieldsImprove", "ResultValid"])
     models.cbldm_mc(ck, 6 if q else 7, 3, [1, 2, 7], True, ["ResultValid", "Conservation"], props=["Monotone"])
     P = scope.p_scope(ck, 4 if q else 5, 4, 3)
